@@ -622,6 +622,16 @@ func checkLineLoader(c *Ctx, f *ssa.Function, isParser func(*ssa.Call) bool, wha
 				continue
 			}
 		}
+		// strings.Cut(s, sym)'s `before` is RemoveComment(s, sym)
+		if ex, isEx := v.(*ssa.Extract); isEx && ex.Index == 0 {
+			if cc, isC := ex.Tuple.(*ssa.Call); isC && callName(cc) == "strings.Cut" {
+				if sym, okS := cc.Call.Args[1].(*ssa.Const); okS && sym.Value != nil {
+					steps = append(steps, "cut:"+strings.Trim(sym.Value.ExactString(), `"`))
+					v = cc.Call.Args[0]
+					continue
+				}
+			}
+		}
 		cl, ok := v.(*ssa.Call)
 		if !ok {
 			why = "the line handed to the parser derives from " + exprStr(v) + ", not from a recognised clean-up of scanner.Text()"
